@@ -12,7 +12,7 @@ LEVEL = ("Classical static necessary conditions for deadlock freedom and complet
          "Sampler request method sends exactly one command and, when the send succeeded, receives exactly one response, and every arm of the "
          "controller's command match reaches the next loop iteration through exactly one response or leaves the loop with an error (R3); abort() drops "
          "the command sender before joining, the controller finalises the trace (consuming all chain handles, hence all mailbox senders) on every path "
-         "after the command loop, and the worker leaves its loop on Disconnected and when its trace slot is empty (R4); per recorded draw the worker does "
+         "after the command loop, and the worker leaves its loop on Disconnected and when its trace slot is empty (R4); no try_lock anywhere and finalisation takes every trace slot under a blocking lock (R6); per recorded draw the worker does "
          "exactly one progress update and one record_sample under the trace guard, counts the draw only after a successful record and stops at "
          "num_tune + num_draws (R5). Absence of deadlock over all interleavings is not decided (that needs a protocol model, a different technique).")
 EXPLANATION = ("Guard-liveness dataflow on MIR (lock call -> guard local -> drop terminator), lock-class edges closed over the call graph, blocking-call "
@@ -432,7 +432,30 @@ def r5(F, R):
                     if a[0] == "local" and a[1] == st["pl"]["l"] and v[1][3][0] == "const":
                         cnt = (st["pl"]["l"], bi, v[1][3][2])
     if cnt is None:
-        R.bad("C11-R5", "worker:counter", site, "no draw counter increment found in the loop")
+        # alternative shape: the loop is driven by a `0..total` range iterator: one iteration per recorded draw
+        nxt = None
+        for bb, t in w.calls():
+            if strip_generics(t["callee"].get("path", "")).endswith("Iterator::next") and D in w.reach_from(bb) and bb in w.reach_from(after):
+                v = w.value(t["args"][0]) if t["args"] else None
+                s_ = vt_str(v) if v else ""
+                if "Range" in s_ and "hint_num_tune" in s_ and "hint_num_draws" in s_:
+                    nxt = (bb, t)
+        if nxt is None:
+            R.bad("C11-R5", "worker:counter", site, "no draw counter increment and no `0..hint_num_tune()+hint_num_draws()` range driving the loop")
+        else:
+            nbb = nxt[0]
+            some_t = None
+            for bi, blk in enumerate(w.blocks):
+                tt = blk["term"]
+                if tt["k"] == "switch" and "enum_place" in tt and tt["enum_place"]["l"] == nxt[1]["dest"]["l"]:
+                    some_t = next((a["target"] for a in tt["arms"] if a.get("name") == "Some"), None)
+            rng2 = K.path_count_range(w, rec, some_t, targets=[nbb]) if some_t is not None else None
+            if rng2 == (1, 1):
+                R.ok("C11-R5", "worker:counter", site, "loop driven by 0..total: every consumed iteration records exactly one draw")
+                R.ok("C11-R5", "worker:stop-at-total", site, "range end = hint_num_tune() + hint_num_draws()")
+            else:
+                R.bad("C11-R5", "worker:counter", site, "loop driven by 0..total, but an iteration records %s draws (expected exactly one): control commands can use up "
+                      "iterations, the run ends with fewer than num_tune + num_draws draws" % (rng2,))
     else:
         l, cbb, step = cnt
         # dominated by the Continue edge of record_sample's `?`
@@ -466,8 +489,48 @@ def r5(F, R):
     R.floor("C11-R5", 5)
 
 
+def try_locks(F):
+    out = []
+    for b in F.bodies.values():
+        for bb, t in b.calls():
+            p = strip_generics(t["callee"].get("path", ""))
+            if p.endswith(("Mutex::try_lock", "RwLock::try_read", "RwLock::try_write", "Mutex::try_lock_owned")):
+                out.append((b, bb, t))
+    return out
+
+
+def r6(F, R, P):
+    R.rule("C11-R6", "no try_lock on any mutex of the library: whether a trace slot / progress record is seen would depend on what another thread is doing at "
+                     "that instant (an abort during a record would silently drop that chain's trace); finalize_many takes every chain's slot under a blocking lock")
+    tl = try_locks(F)
+    for (b, bb, t) in tl:
+        R.bad("C11-R6", "%s:try_lock" % b.path, "%s @%s" % (b.path, loc(t["span"])), "try_lock: the outcome depends on whether another thread holds the lock right now")
+    nlocks = sum(len(lock_calls(b)) for b in F.bodies.values())
+    R.ok("C11-R6", "scan", "library crates", "%d lock sites, %d of them try_lock" % (nlocks, len(tl)))
+    if not any("c11_try_lock_skips" in b.path for (b, _bb, _t) in try_locks(P)):
+        R.bad("C11-R6", "positive-control", "fixtures/positive", "matcher does not report the planted try_lock")
+    else:
+        R.ok("C11-R6", "positive-control", "fixtures/positive", "planted try_lock is reported")
+    if "parallel" in C10.features(F):
+        fm = F.inherent_methods("ChainProcess", "finalize_many")
+        for b in fm:
+            bodies = [b] + K.all_closures_of(F, b.path)
+            locks = [(x, bb, t, c) for x in bodies for (bb, t, c) in lock_calls(x)]
+            takes = [(x, bb, t) for x in bodies for bb, t in x.calls() if strip_generics(t["callee"].get("path", "")).endswith("Option::take")]
+            site = "%s @%s" % (b.path, b.loc())
+            blocking = [l for l in locks if l[2]["callee"].get("name") == "lock"]
+            okk = len(blocking) == 1 and len(takes) == 1 and blocking[0][0].path == takes[0][0].path and blocking[0][0].dominates(blocking[0][1], takes[0][1])
+            # the closure runs for every chain: it is the argument of filter_map / map over chains.into_iter()
+            if okk:
+                R.ok("C11-R6", b.path + ":take-under-lock", site, "each chain's trace slot is taken under a blocking lock")
+            else:
+                R.bad("C11-R6", b.path + ":take-under-lock", site, "finalize_many does not take every chain's trace slot under a blocking lock (%d blocking locks, %d takes)" % (len(blocking), len(takes)))
+    R.floor("C11-R6", 2)
+
+
 def run(F, R, config=None):
     P = K.positive_facts()
+    r6(F, R, P)
     r1_r2(F, R, P)
     if "parallel" in C10.features(F):
         r3(F, R)
